@@ -22,6 +22,9 @@ deriving DecidableEq, Repr, Inhabited
 /-- The builtins the core model knows (printed as `std.<name>(args)`). -/
 inductive Builtin where
   | length | type_ | trace | objectHasEx | objectFieldsEx | map | makeArray
+  | filter | foldl | foldr | flatMap | mapWithIndex | mapWithKey | filterMap | join | range
+  | member | count | all | any | equals | compare | primitiveEquals | assertEqual | toString
+  | sort | set
 deriving DecidableEq, Repr, Inhabited
 
 mutual
@@ -138,6 +141,15 @@ def parseBuiltin : String → Option Builtin
   | "length" => some .length | "type" => some .type_ | "trace" => some .trace
   | "objectHasEx" => some .objectHasEx | "objectFieldsEx" => some .objectFieldsEx
   | "map" => some .map | "makeArray" => some .makeArray
+  | "filter" => some .filter | "foldl" => some .foldl | "foldr" => some .foldr
+  | "flatMap" => some .flatMap | "mapWithIndex" => some .mapWithIndex
+  | "mapWithKey" => some .mapWithKey | "filterMap" => some .filterMap
+  | "join" => some .join | "range" => some .range | "member" => some .member
+  | "count" => some .count | "all" => some .all | "any" => some .any
+  | "equals" => some .equals | "__compare" => some .compare
+  | "primitiveEquals" => some .primitiveEquals | "assertEqual" => some .assertEqual
+  | "toString" => some .toString
+  | "sort" => some .sort | "set" => some .set
   | _ => none
 
 def hexNat (s : String) : Option Nat :=
